@@ -1,0 +1,57 @@
+//go:build verif
+
+// Contracts for package producer, checked by /verif/govc (comment-only file; it declares nothing).
+// What is decided here (C14, in part): every message taken from the queue is handed to the sink
+// client exactly once on the failure-free path, byte for byte, newline-terminated for the raw
+// socket, in the order received. Reconnection, duplicates and gaps under connection faults are
+// fault-sequence properties and are not decided by contracts.
+package producer
+
+// ---- raw socket: one write of msg ++ "\n" per message --------------------------------------------------
+//@ func (*RawSocket).inputMsg
+//@   opt replaytest call.assert producer_rawsocket_bytes.go
+//@   requires rs.logger != nil && ec != nil
+//@   opt nonterminating
+//@   opt countcalls Fprintf
+//@   callassert Fprintf: arg1 == "%s\n" && len(arg2) == 1 && iskind(arg2[0], bytes) && sameview(anybytes(arg2[0]), msg)
+//@   modifies rs.connection, ec
+//@   loop 1
+//@     invariant rs != nil && rs.logger != nil && ec != nil
+//@     step [delivered] calls_Fprintf >= iter(calls_Fprintf) + 1
+//@     step [once] val(ec) == iter(val(ec)) ==> calls_Fprintf == iter(calls_Fprintf) + 1   // more than one write only after a counted error
+//@   loop 2
+//@     invariant rs != nil && rs.logger != nil && ec != nil && 0 <= i && calls_Fprintf == pre(calls_Fprintf) + i && val(ec) == (pre(val(ec)) + i) % 18446744073709551616
+//@     decreases rs.config.MaxRetry - i >= 0 ? rs.config.MaxRetry - i + 1 : 0
+
+// ---- kafka (sarama): exactly one hand-over to the producer's input per message ------------------------
+//@ func (*KafkaSarama).inputMsg
+//@   opt replaytest step producer_sarama_once.go
+//@   requires k.logger != nil && ec != nil && k.producer != nil
+//@   opt nonterminating
+//@   opt countsends Input
+//@   modifies ec
+//@   loop 1
+//@     invariant k != nil && k.logger != nil && ec != nil && k.producer != nil
+//@     step [once] sends_Input == iter(sends_Input) + 1
+//@     step [unchanged] lastsent_Input != nil && val(lastsent_Input).Topic == topic && iskind(val(lastsent_Input).Value, bytes) && sameview(anybytes(val(lastsent_Input).Value), msg)
+
+// ---- NSQ and NATS: one Publish(topic, msg) per message ---------------------------------------------------
+//@ func (*NSQ).inputMsg
+//@   requires n.logger != nil && ec != nil && n.producer != nil
+//@   opt nonterminating
+//@   opt countcalls Publish
+//@   callassert Publish: arg0 == topic && sameview(arg1, msg)
+//@   modifies ec
+//@   loop 1
+//@     invariant n != nil && n.logger != nil && ec != nil && n.producer != nil
+//@     step [once] calls_Publish == iter(calls_Publish) + 1
+
+//@ func (*NATS).inputMsg
+//@   requires n.logger != nil && ec != nil && n.connection != nil
+//@   opt nonterminating
+//@   opt countcalls Publish
+//@   callassert Publish: arg0 == topic && sameview(arg1, msg)
+//@   modifies ec
+//@   loop 1
+//@     invariant n != nil && n.logger != nil && ec != nil && n.connection != nil
+//@     step [once] calls_Publish == iter(calls_Publish) + 1
